@@ -1,0 +1,18 @@
+//go:build verif
+
+package decimal128
+
+// Verification hooks (build tag verif). Nothing here is compiled into normal
+// builds. They expose the raw 128-bit representation so that a checker can
+// observe results without going through the codecs that are themselves under
+// test.
+
+// VerifBits returns the raw words of d.
+func VerifBits(d Decimal) (hi, lo uint64) {
+	return d.hi, d.lo
+}
+
+// VerifFromBits builds a Decimal from raw words.
+func VerifFromBits(hi, lo uint64) Decimal {
+	return Decimal{lo, hi}
+}
